@@ -267,6 +267,22 @@ func init() {
 						}
 					}
 				}
+				// happens-before race detection: two goroutines, one operation each (0 Close, 1 Connect, 2 Do), in both orders
+				for opa := 0; opa < 3; opa++ {
+					for opb := 0; opb < 3; opb++ {
+						if mode == 2 && (opa == 1 || opb == 1) {
+							continue // the serial client has no Connect
+						}
+						for hooks := 0; hooks < 2; hooks++ {
+							for _, fault := range []int{0, 2, 3, 5} {
+								if fault != 0 && opa != 2 && opb != 2 {
+									continue
+								}
+								js = append(js, sym.Job{Harness: "VH_C14_race", Params: map[string]int{"mode": mode, "opa": opa, "opb": opb, "hooks": hooks, "fault": fault}})
+							}
+						}
+					}
+				}
 			}
 			return js
 		},
@@ -275,6 +291,6 @@ func init() {
 			"thorough": "all 10 request kinds; panicking hooks combined with every fault",
 		},
 		Outside:   []string{"goroutine interleavings are NOT a variable of this check: it decides the sequential lock discipline (lock held at every transport operation, released on every path, never taken twice) from which mutual exclusion of whole exchanges follows by the semantics of sync.RWMutex; data races on fields, fairness and the go test -race clause are outside"},
-		MinCovers: []string{"do-returned", "two-exchanges", "concurrent-op"},
+		MinCovers: []string{"do-returned", "two-exchanges", "concurrent-op", "raced"},
 	})
 }
